@@ -25,6 +25,7 @@ Section CurrentCs.
   Variable v : variant.
   Hypothesis Hsafe : v_safe v = true.
   Hypothesis Hlist : v_listjson_dry v = true.
+  Hypothesis Hdfg : v_dry_fail_guard v = true.
 
   Notation step := (step matchb H Hx).
   Notation observe := (observe matchb H Hx).
@@ -64,7 +65,7 @@ Section CurrentCs.
   (* one direct invocation, summarised over the record of the task and of the others *)
   Inductive csum (s : state) (m : mode) (t : task) (s' : state) (r : res) : Prop :=
   | CS_skip : m <> Force -> upf s t = true -> s' = s -> r = RSkipped -> csum s m t s' r
-  | CS_dry : m = Dry -> upf s t = false -> cks s' = cks s -> r = RDry -> csum s m t s' r
+  | CS_dry : m = Dry -> upf s t = false -> cks s' = cks s -> (r = RDry \/ r = RFailed) -> csum s m t s' r
   | CS_bad : m <> Dry -> (m = Force \/ upf s t = false) ->
              (r = RDeclined \/ r = RFailed \/ r = RKilled) ->
              recc s' t = None ->
@@ -108,9 +109,10 @@ Section CurrentCs.
       set (s2 := with_cks s (remove_key (cs_key t) (cks s))) in *.
       destruct dry eqn:Ed.
       + assert (m = Dry) by (destruct m; subst dry; try discriminate; auto). subst m.
-        cbn [negb andb] in E. rewrite andb_false_r in E. cbn [andb] in E.
+        cbn [negb andb] in E. rewrite andb_false_r in E. cbn [andb] in E. rewrite Hdfg in E.
         destruct Hnu as [?|Hnu]; [discriminate|].
-        destruct (v_dry_mkdir_guard v); inversion E; subst; apply CS_dry; auto using cks_mkdir'.
+        destruct (guard_ok s t); cbn [negb] in E;
+          destruct (v_dry_mkdir_guard v); inversion E; subst; apply CS_dry; auto using cks_mkdir'.
       + assert (Hnd : m <> Dry) by (intros ->; subst dry; discriminate).
         cbn [negb andb] in E. rewrite andb_true_r in E.
         destruct (t_prompt t && is_prompt_no o).
@@ -124,9 +126,23 @@ Section CurrentCs.
           apply CS_bad; auto.
           -- eapply recc_remove_same; eauto.
           -- intros; eapply recc_remove_other; eauto.
-        * cbn [andb] in E. unfold run_cmds, after_success in E. rewrite Hsafe in E.
-          set (sm := mkdir s2 (t_dir t)) in *.
-          assert (Hsm : cks sm = remove_key (cs_key t) (cks s)) by (unfold sm; rewrite cks_mkdir'; reflexivity).
+        * cbn [andb] in E.
+          destruct (guard_ok s t); cbn [negb] in E.
+          2:{ (* the sub-call fails: a failing command *)
+              inversion E; subst. clear E. rewrite (on_error_csc _ t Hwt).
+              assert (Hck : cks (with_cks (mkdir s2 (t_dir t)) (remove_key (cs_key t) (cks (mkdir s2 (t_dir t)))))
+                            = remove_key (cs_key t) (cks s)).
+              { cbn [cks with_cks]. rewrite cks_mkdir'. unfold s2. cbn [cks with_cks].
+                clear. induction (cks s) as [|[k x] l IH]; cbn; auto.
+                destruct (String.eqb_spec (cs_key t) k); cbn; auto.
+                destruct (String.eqb_spec (cs_key t) k); [congruence|]. now rewrite IH. }
+              apply CS_bad; auto.
+              - eapply recc_remove_same; eauto.
+              - intros; eapply recc_remove_other; eauto. }
+          unfold run_cmds, after_success in E. rewrite Hsafe in E.
+          set (sm := child_trace (mkdir s2 (t_dir t)) tid t) in *.
+          assert (Hsm : cks sm = remove_key (cs_key t) (cks s)).
+          { unfold sm, child_trace. destruct (t_subguard t); cbn [cks with_trace]; rewrite cks_mkdir'; reflexivity. }
           set (sok := write_outputs (N.succ now) (with_trace sm (add_trace tid 0 (t_ncmds t) (trace sm))) t) in *.
           assert (Hsok : cks sok = remove_key (cs_key t) (cks s)) by (unfold sok; cbn; exact Hsm).
           assert (Hokc : ((if negb force || v_force_records v then record matchb H Hx v now (fs s) sok t else sok), ROk) = (s', r) ->
@@ -243,7 +259,7 @@ Section CurrentCs.
                 run_task matchb H Hx v t0 s mm tid t oc = (s', x) -> ok = true /\ InvC p s' g').
       { intros mm Hmm -> Er.
         pose proof (run_task_csum _ _ _ _ _ _ _ _ Hwt' Hmm Er) as Sm.
-        destruct Sm as [Hnf Hup -> ->|Hd Hup Hss ->|Hnd Hup Hr Hnone Hoth|Hnd Hup -> Hrec Hoth].
+        destruct Sm as [Hnf Hup -> ->|Hd Hup Hss Hrd|Hnd Hup Hr Hnone Hoth|Hnd Hup -> Hrec Hoth].
         - cbn [is_skipped] in Ec.
           assert (Hat : is_attempt mm RSkipped = false) by (destruct mm; reflexivity).
           rewrite Hat in Ec.
@@ -252,7 +268,7 @@ Section CurrentCs.
           apply str_eq_opt_true in Hrec. destruct (Hinv _ _ _ Hn Hrec) as [fp0 [Ed Hl]].
           assert (fp0 = task_fp t (fs s)) by (eapply nocoll_use; eauto using g04_lookup_in).
           subst fp0. rewrite Hl, Hgen in Ec. inversion Ec; subst. auto.
-        - subst mm. cbn in Ec. inversion Ec; subst. split; auto. eapply invC_same; eauto.
+        - subst mm. destruct Hrd as [-> | ->]; cbn in Ec; inversion Ec; subst; (split; [reflexivity | eapply invC_same; eauto]).
         - assert (Hat : is_attempt mm x = true).
           { destruct Hmm as [->|[->| ->]]; try congruence; destruct Hr as [->|[->| ->]]; reflexivity. }
           assert (Hsk : is_skipped x = false) by (destruct Hr as [->|[->| ->]]; reflexivity).
@@ -372,7 +388,7 @@ Section CurrentCs.
       { intros mm Hmm -> Er.
         pose proof (run_task_csum _ _ _ _ _ _ _ _ Hwt' Hmm Er) as Sm.
         pose proof (Hinv _ _ Hn) as Hi.
-        destruct Sm as [Hnf Hup -> ->|Hd Hup Hss ->|Hnd Hup Hr Hnone Hoth|Hnd Hup -> Hrec Hoth].
+        destruct Sm as [Hnf Hup -> ->|Hd Hup Hss Hrd|Hnd Hup Hr Hnone Hoth|Hnd Hup -> Hrec Hoth].
         - assert (Hat : is_attempt mm RSkipped = false) by (destruct mm; reflexivity).
           rewrite Hat in Ec.
           destruct Hmm as [->|[->| ->]]; try congruence.
@@ -381,7 +397,7 @@ Section CurrentCs.
             * inversion Ec; subst; auto.
             * inversion Ec; subst; auto.
           + inversion Ec; subst; auto.
-        - subst mm. cbn in Ec. inversion Ec; subst. split; auto. eapply invC5_same; eauto.
+        - subst mm. destruct Hrd as [-> | ->]; cbn in Ec; inversion Ec; subst; (split; [reflexivity | eapply invC5_same; eauto]).
         - assert (Hat : is_attempt mm x = true).
           { destruct Hmm as [->|[->| ->]]; try congruence; destruct Hr as [->|[->| ->]]; reflexivity. }
           assert (Hok : is_ok x = false) by (destruct Hr as [->|[->| ->]]; reflexivity).
